@@ -4,6 +4,7 @@ namespace qsx {
 void register_c06();
 void register_solve();
 void register_c05();
+void register_c07();
 void register_all_properties() {
   static bool done = false;
   if (done) return;
@@ -11,5 +12,6 @@ void register_all_properties() {
   register_c06();
   register_solve();
   register_c05();
+  register_c07();
 }
 }
